@@ -89,12 +89,40 @@ def all_defs(mod, fs):
     return defs
 
 
+def recfun_natives(mod, ns):
+    """Native twins of the recursive spec functions: the same body text, compiled as a Python lambda."""
+    S = mod.S
+    gdefs = dict(getattr(S, "global_defs", {}))
+    for name, (params, returns, body) in getattr(S, "recfuns", {}).items():
+        t = ast.parse(body.strip(), mode="eval").body
+        t = Expander(gdefs, None).visit(t)
+        t = LazyImplies().visit(t)
+        lam = ast.Lambda(args=ast.arguments(posonlyargs=[], args=[ast.arg(arg=p) for p, _ in params],
+                                            kwonlyargs=[], kw_defaults=[], defaults=[]), body=t)
+        e = ast.Expression(lam)
+        ast.fix_missing_locations(e)
+        ns[name] = eval(compile(e, "<recfun %s>" % name, "eval"), ns)
+
+
+def base_namespace(mod):
+    ns = dict(N.NATIVES)
+    try:
+        from pyvc import native_term
+        ns.update(native_term.ACCESSORS)
+    except Exception:
+        pass
+    ns.update(getattr(mod, "NATIVE_SPEC", {}))
+    recfun_natives(mod, ns)
+    for name in getattr(mod.S, "recfuns", {}):
+        setattr(mod, name, ns[name])       # helper functions of the contract module may call them
+    return ns
+
+
 def evaluate_contract(mod, fs, func, vals, extra_ns=None):
     """Call func(**vals) and evaluate the contract.  -> (ok: bool|None, text)"""
     defs = all_defs(mod, fs)
     params = list(vals)
-    ns = dict(N.NATIVES)
-    ns.update(getattr(mod, "NATIVE_SPEC", {}))
+    ns = base_namespace(mod)
     ns.update(extra_ns or {})
     ns.update(vals)
     ghost = getattr(mod, "native_ghost", None)     # recompute ghost fields from the concrete state
